@@ -61,6 +61,11 @@ CHECKS = {
         technique="TLA+ Selection.tla lexicase: TLC checks survivorship, non-domination, degenerate cases and that the trace-acceptance predicate accepts exactly the runs of the filter; real selections trace-validated from the logged per-case comparisons; winner and first-case frequencies compared with the TLC-derived law",
         text="On every result matrix of up to 3 individuals x 2/3 cases over 3 values, both polarities, TLC checks that winners survive some case order, are never Pareto-dominated, that zero cases / one individual degenerate correctly and derives each individual's exact selection probability; every real selection logs the comparisons its probe results took part in and TLC checks that the visited cases are distinct, that exactly the survivors were compared at each case, that filtering did not stop early and that the winner is a final survivor; winner frequencies and the first visited case must match the derived law.",
         note="As C07 for the statistical part. Case order is observed through Ord::cmp of probe results."),
+    "C12": dict(
+        cat="other", ref="DESIGN.md §4 C12",
+        technique="TLA+ spec VariationLaw.tla: probability laws derived by TLC by counting equally likely draw vectors, the property's closed forms checked as ASSUMEs; the real operators sampled 1e5/3e6 times per configuration and compared cell by cell with the derived law under an explicit false-alarm budget",
+        text="A statement about distributions: the specification says what each law is (coins as explicit draws) and TLC checks the property's consequences on it exactly (independence, one expected flip, keep = 1-del, insertion = add(1-del), size preserved iff del = add/(1+add), 1/2 per position, close probability c / default 1/(n+1)); conformance of WithRate, WithOneOverLength, Umad (Vector, Plushy), UniformXo, Bitstring::random*, GeneGenerator (all constructors) is statistical: every outcome cell within a Chernoff-KL bound at per-cell alpha 1e-12 (detectable deviation reported in evidence, about 1.2% absolute at p = 1/2 for quick). No exhaustive claim.",
+        note="Assumes SmallRng is uniform. Decides 'within epsilon of the law'. Rates are small rationals; genome lengths 2-4 for exact cell laws."),
     "C13": dict(
         cat="model_checking", ref="DESIGN.md §4 C13",
         technique="TLA+ spec Weighted.tla; TLC over all tree shapes <= 3/4 leaves x weights 0..3, dynamic lists and construction sequences (Proportional as cross-multiplied invariant for every shape); replay on real Weighted/WeightedPair/WithWeightedItem/DynWeighted with marker members; empirical member frequencies vs the law",
